@@ -405,7 +405,8 @@ def main(argv):
     # concretiser then searches (bounded) for a failing input on the real code;
     # without one the verdict is UNDECIDED, not a violation.
     def is_aux(name):
-        return bool(re.match(r'(loop\d+\.|frame\.|yield\.)', name))
+        # (a function-level frame.* obligation is part of the contract: its counter-model is an input)
+        return bool(re.match(r'(loop\d+\.|yield\.)', name))
     by_func = {}
     for r, o in violations:
         by_func.setdefault(r['qualname'], []).append((r, o))
